@@ -4,6 +4,7 @@ package service
 // lock ordering. Natively these run on real loopback TCP sockets and a channel-based packet fake.
 
 import (
+	"container/list"
 	"net"
 	"os"
 	"sync"
@@ -406,22 +407,44 @@ func VH_C13_listen_vs_close() {
 }
 
 func VH_C13_listen_vs_close_stream() {
-	verifSched(2)
-	lm := NewListenerManager()
-	h1, err := lm.ListenStream("127.0.0.1:0")
-	verifAssert("C13.stream.first-listen", err == nil)
-	addr := "127.0.0.1:0" // the manager shares listeners by the configured address text
-	done1, done2 := make(chan error, 1), make(chan error, 1)
-	go func() { done2 <- h1.Close() }()
-	go func() {
-		h, err := lm.ListenStream(addr)
-		if err == nil {
-			h.Close()
+	for rep := 0; rep < verifRepeat(1500); rep++ {
+		verifSched(2)
+		lm := NewListenerManager()
+		h1, err := lm.ListenStream("127.0.0.1:0")
+		verifAssert("C13.stream.first-listen", err == nil)
+		addr := "127.0.0.1:0" // the manager shares listeners by the configured address text
+		done1, done2 := make(chan error, 1), make(chan error, 1)
+		var h2 StreamListener
+		go func() { done2 <- h1.Close() }()
+		go func() {
+			h, err := lm.ListenStream(addr)
+			if err == nil {
+				h2 = h
+			}
+			done1 <- err
+		}()
+		verifQuiesce()
+		verifSched(0)
+		verifAssert("C13.stream.all-calls-return", len(done1) == 1 && len(done2) == 1)
+		if len(done1) != 1 || len(done2) != 1 {
+			return
 		}
-		done1 <- nil
-	}()
-	verifQuiesce()
-	verifAssert("C13.stream.all-calls-return", len(done1) == 1 && len(done2) == 1)
+		// the manager is usable: the handle it just returned takes connections
+		verifAssert("C13.stream.listen-succeeded", <-done1 == nil && h2 != nil)
+		if h2 != nil {
+			r := verifAcceptAsync(h2)
+			id := verifDialTCP(h2.Addr())
+			verifQuiesce()
+			verifAssert("C13.stream.manager-usable-afterwards", id >= 0 && len(r) == 1)
+			if len(r) == 1 {
+				if a := <-r; a.conn != nil {
+					a.conn.Close()
+				}
+			}
+			h2.Close()
+			verifQuiesce()
+		}
+	}
 	verifReach("C13.stream.done", true)
 }
 
@@ -1110,4 +1133,144 @@ func VH_C12_packet_burst_unread() {
 	verifQuiesce()
 	verifAssert("C12.unread-burst.nothing-running", verifBlockedIn(verifReadLoop) == 0 && verifBlockedIn("verifInjectAll") == 0)
 	verifReach("C12.unread-burst.done", true)
+}
+
+// C19 / C12: two goroutines read from one handle at the same time: each call returns one whole
+// datagram (its own length, sender and bytes), and each datagram is returned once
+func VH_C19_two_readers_one_handle() {
+	for rep := 0; rep < verifRepeat(400); rep++ {
+		verifC19TwoReaders()
+	}
+}
+
+func verifC19TwoReaders() {
+	verifRaceDetect(true)
+	verifSchedFirst(5) // which of the goroutines goes on first, at the first five points where one blocks
+	delete(verifBoundPC, "127.0.0.1:9310")
+	ml := NewMultiPacketListener("127.0.0.1:9310", nil)
+	h, err := ml.Acquire()
+	verifAssert("C19.two-readers.acquire", err == nil)
+	pc := verifBoundPC["127.0.0.1:9310"]
+	type res struct {
+		n    int
+		addr net.Addr
+		err  error
+		buf  []byte
+	}
+	out := make([]res, 2)
+	var wg sync.WaitGroup
+	for i := 0; i < 2; i++ {
+		i := i
+		wg.Add(1)
+		go func() {
+			defer wg.Done()
+			buf := make([]byte, 8)
+			n, a, err := h.ReadFrom(buf)
+			out[i] = res{n, a, err, buf}
+		}()
+	}
+	fromA := &net.UDPAddr{IP: net.IPv4(203, 0, 113, 5), Port: 4001}
+	fromB := &net.UDPAddr{IP: net.IPv4(203, 0, 113, 6), Port: 4002}
+	go func() {
+		verifInject(pc, []byte{0xA1}, fromA)
+		verifInject(pc, []byte{0xB1, 0xB2, 0xB3}, fromB)
+	}()
+	wg.Wait()
+	verifSchedFirst(0)
+	seenA, seenB := 0, 0
+	for _, r := range out {
+		isA := r.err == nil && r.n == 1 && r.buf[0] == 0xA1 && r.addr == net.Addr(fromA)
+		isB := r.err == nil && r.n == 3 && r.buf[0] == 0xB1 && r.buf[1] == 0xB2 && r.buf[2] == 0xB3 && r.addr == net.Addr(fromB)
+		verifAssert("C19.two-readers.each-call-returns-one-whole-datagram", isA || isB)
+		verifAssert("C12.two-readers.datagram-intact", isA || isB)
+		if isA {
+			seenA++
+		}
+		if isB {
+			seenB++
+		}
+	}
+	verifAssert("C12.two-readers.each-datagram-once", seenA == 1 && seenB == 1)
+	h.Close()
+	verifQuiesce()
+}
+
+// C01: long key lists, the client's key at any position (in particular the last ones)
+func VH_C01_long_list() {
+	n := 16 + verifChoice("extra-keys", 4) // 16..19 keys
+	l := list.New()
+	for i := 0; i < n; i++ {
+		e := MakeCipherEntry("id-"+verifItoa(i), verifKey(0, "long-"+verifItoa(i)), "long-"+verifItoa(i))
+		l.PushBack(&e)
+	}
+	cl := NewCipherList()
+	cl.Update(l)
+	pos := n - 1 - verifChoice("from-the-end", 4)
+	key := verifKey(0, "long-"+verifItoa(pos))
+	buf := &verifBuf{}
+	w := verifNewWriterWithSalt(buf, key, verifFixedSaltGen{1})
+	w.Write([]byte{1, 93, 184, 216, 34, 0, 80, 'x'})
+	conn := &verifStreamConn{name: "client", remote: &net.TCPAddr{IP: net.IPv4(203, 0, 113, 5), Port: 50000}}
+	conn.reads = []verifSRead{{data: buf.b}}
+	e, _, _, _, err := findAccessKey(conn, remoteIP(conn), cl, noopLogger())
+	verifAssert("C01.long-list.authenticated-at-any-position", err == nil && e != nil && e.ID == "id-"+verifItoa(pos))
+	verifReach("C01.long-list.last-of-19", n == 19 && pos == 18)
+}
+
+// C13: the first listens on an address the manager has not seen yet arrive at the same time
+// (both kinds): every call returns and the manager is usable afterwards
+func VH_C13_concurrent_first_listens() {
+	for rep := 0; rep < verifRepeat(800); rep++ {
+		delete(verifBoundPC, "127.0.0.1:9311")
+		lm := NewListenerManager()
+		packet := verifFlag("packet")
+		callers := 2
+		if verifNative() {
+			callers = 16 // more callers widen the window natively
+		}
+		done := make(chan interface{ Close() error }, callers)
+		verifSched(1)
+		for i := 0; i < callers; i++ {
+			go func() {
+				if packet {
+					h, err := lm.ListenPacket("127.0.0.1:9311")
+					verifAssert("C13.first-listens.both-succeed", err == nil)
+					done <- h
+				} else {
+					h, err := lm.ListenStream("127.0.0.1:9311")
+					verifAssert("C13.first-listens.both-succeed", err == nil)
+					done <- h
+				}
+			}()
+		}
+		verifQuiesce()
+		verifSched(0)
+		verifAssert("C13.first-listens.all-calls-return", len(done) == callers)
+		if len(done) != callers {
+			return
+		}
+		// usable afterwards: another address, both kinds
+		again := make(chan int, 1)
+		go func() {
+			s, err1 := lm.ListenStream("127.0.0.1:9312")
+			delete(verifBoundPC, "127.0.0.1:9312")
+			p, err2 := lm.ListenPacket("127.0.0.1:9312")
+			if err1 == nil {
+				s.Close()
+			}
+			if err2 == nil {
+				p.Close()
+			}
+			again <- 1
+		}()
+		verifQuiesce()
+		verifAssert("C13.first-listens.manager-usable-afterwards", len(again) == 1)
+		for len(done) > 0 {
+			if h := <-done; h != nil {
+				h.Close()
+			}
+		}
+		verifQuiesce()
+	}
+	verifReach("C13.first-listens.done", true)
 }
